@@ -950,8 +950,12 @@ def format_toc(obj: model.Documentable) -> Optional[Tag]:
                 # the problem is reported when the full docstring gets rendered.
                 toc = None
             if toc:
-                return safe_to_stan(toc, obj.docstring_linker, obj, report=False,
-                    fallback=lambda _,__,___:BROKEN)
+                linker = obj.docstring_linker
+                with linker.switch_context(obj):
+                    # Problems in the titles are reported when the docstring itself is rendered.
+                    linker.reporting_obj = None
+                    return safe_to_stan(toc, linker, obj, report=False,
+                        fallback=lambda _,__,___:BROKEN)
     return None
 
 
